@@ -5,7 +5,7 @@ import ast
 from .. import AnalysisError
 from ..callgraph import LOCK_WRAPPERS
 from ..cfg import ALL_KINDS, NORMAL_KINDS, iter_own
-from ..lib import always_followed_by, dominated_by, guard_forms, inline_locals, iteration_paths, key_of, render, unlocked_writers
+from ..lib import always_followed_by, dominated_by, guard_forms, inline_locals, iteration_paths, key_of, only_return, render, unlocked_writers
 from ..report import describe, rule
 
 P = "C08"
@@ -59,7 +59,62 @@ def node_rows_go_to_node_file(ctx, r, rid):
                     "reported as newly completed to exactly one submitter round")
     if n < 2:
         raise AnalysisError(rid, f"only {n} ResultsAggregator.append call sites found (expected the completion and the cancel site)")
+    # the flag itself: stored from the constructor argument, which every construction site computes by *calling* the interface's am_i_manager()
+    from ..lib import attr_stores, inlined_expr
 
+    ACC = "AsyncCliCommand"
+    init = ctx.fn(f"{ACC}.__init__", rid)
+    for f2, node, attr, t, kind in attr_stores(ctx, {"_is_manager_node"}):
+        if f2.cls is not None and f2.cls.name == ACC:
+            stt = ctx.stmt_of(f2, node)
+            okst = f2 is init and isinstance(getattr(stt, "value", None), ast.Name) and stt.value.id in init.params
+            r.check(okst, "_is_manager_node is the constructor argument", key_of(f2, "writes _is_manager_node"), f2.loc(node), f"`{ctx.src(stt)[:60]}` rebinds the manager-node flag", "No row is lost, duplicated")
+            pname = stt.value.id if okst else None
+            m = 0
+            for g in ctx.ix.functions.values():
+                for s2 in ctx.cg.sites_in(g):
+                    if not (s2.constructs or "").endswith(ACC) or pname is None:
+                        continue
+                    m += 1
+                    v = ctx.arg_for(s2, init, pname)
+                    e = inlined_expr(ctx, g, v) if v is not None else None
+                    okv = isinstance(e, ast.Call) and isinstance(e.func, ast.Attribute) and e.func.attr == "am_i_manager" and not e.args
+                    r.check(okv, f"{g.short}: the flag is the result of am_i_manager()", key_of(g, "manager-node flag source"), s2.loc,
+                            f"{g.short} passes `{ctx.src(e) if e is not None else None}` as {pname}: not the *result* of the interface's am_i_manager() - a bound method or a constant is truthy on every node, so every "
+                            "node of a multi-node batch records every job and each row appears once per node in the consolidated results", "No row is lost, duplicated")
+            if pname is not None and m < 1:
+                raise AnalysisError(rid, "no construction site of AsyncCliCommand found")
+    manager_election(ctx, r, rid)
+
+
+
+def manager_election(ctx, r, rid, single_node=True):
+    """Exactly one node of a multi-node batch is the manager: SLURM numbers the nodes of an allocation 0..N-1 in SLURM_NODEID (SLURM_LOCALID
+    and SLURM_PROCID number *tasks*; the first task on every node has local id 0).  SlurmManager.am_i_manager must compare SLURM_NODEID with
+    "0" and must not default to "0" when the variable is unset.  (The variable's meaning is SLURM's contract, taken as an assumption.)"""
+    fn = ctx.fn("SlurmManager.am_i_manager", rid)
+    ret = only_return(ctx, fn)
+    txt = ctx.src(ret).replace("'", '"').replace(" ", "") if ret is not None else ""
+    reads = [c for c in ast.walk(ret) if isinstance(c, (ast.Call, ast.Subscript))] if ret is not None else []
+    var = None
+    for c in reads:
+        if isinstance(c, ast.Call) and ctx.src(c.func) in ("os.environ.get", "os.getenv") and c.args and isinstance(c.args[0], ast.Constant):
+            var = (c.args[0].value, c.args[1].value if len(c.args) > 1 and isinstance(c.args[1], ast.Constant) else None)
+        if isinstance(c, ast.Subscript) and ctx.src(c.value) == "os.environ" and isinstance(c.slice, ast.Constant):
+            var = (c.slice.value, "<KeyError>")
+    ok = var is not None and var[0] == "SLURM_NODEID" and var[1] not in ("0", 0) and isinstance(ret, ast.Compare) and len(ret.ops) == 1 and isinstance(ret.ops[0], ast.Eq) and ('=="0"' in txt or '"0"==' in txt)
+    r.check(ok, "the manager node is the one whose SLURM_NODEID is 0", key_of(fn, "manager election"), fn.loc(fn.node),
+            f"SlurmManager.am_i_manager decides by `{ctx.src(ret) if ret is not None else None}`: not `SLURM_NODEID == \"0\"` - with a task-level variable (SLURM_LOCALID, SLURM_PROCID) or a \"0\" default every node of a "
+            "multi-node batch elects itself: each job's result is recorded once per node and run-multi-node-job starts the user's command on every node", "never starts a job's command more than once")
+
+
+    # the single-node siblings: local mode and the fake HPC have one node, which is the manager whatever the environment says
+    for cname in (("LocalManager", "FakeManager") if single_node else ()):
+        m = ctx.fn(f"{cname}.am_i_manager", rid)
+        rv = only_return(ctx, m)
+        r.check(isinstance(rv, ast.Constant) and rv.value is True, f"{cname}.am_i_manager() is True", key_of(m, "single-node manager election"), m.loc(m.node),
+                f"{cname}.am_i_manager returns `{ctx.src(rv) if rv is not None else None}` instead of True: a single-node run can decide it is not the manager (from a SLURM variable inherited from an enclosing "
+                "allocation, say), and then no job records its result - the run completes with every job missing", "every job ... exactly one entry ... no missing jobs")
 
 
 def rows_newline_terminated(ctx, r, rid):
@@ -371,3 +426,40 @@ def c08_7(ctx, r):
     from .c03 import collect_before_completion
 
     collect_before_completion(ctx, r, "C08.7")
+
+
+@rule(P, "C08.8", "T8", "the results lock lies beside the file it protects, so every process on every node contends for the same lock", min_obligations=2)
+def c08_8(ctx, r):
+    """Writers (job runners on compute nodes) and the collector are different processes with different working directories.  They exclude each
+    other only if the lock path is a function of the *complete* path of the results file: the path handed to SoftFileLock in the class's lock
+    wrapper must be built from the file path in a directory-preserving way (P.parent / ..., str(P) + ".lock", ...), not from P.name alone."""
+    from ..lib import inlined_expr, keeps_directory_of
+
+    wr = ctx.fn(f"{RA}._do_action_under_lock", "C08.8")
+    init = ctx.fn(f"{RA}.__init__", "C08.8")
+    ctor = [c for c in iter_own(wr.node) if isinstance(c, ast.Call) and ctx.src(c.func).split(".")[-1] in ("SoftFileLock", "FileLock") and c.args]
+    if len(ctor) != 1:
+        raise AnalysisError("C08.8", f"{len(ctor)} file-lock constructions in {wr.short}")
+    la = ctor[0].args[0]
+    if not (isinstance(la, ast.Attribute) and isinstance(la.value, ast.Name) and la.value.id == wr.params[0]):
+        raise AnalysisError("C08.8", f"lock path `{ctx.src(la)}` is not an attribute of the aggregator")
+    r.ok(f"lock wrapper locks self.{la.attr}")
+    fparam = init.params[1]
+    stores = [n for n in iter_own(init.node) if isinstance(n, ast.Assign) and any(isinstance(t, ast.Attribute) and t.attr == la.attr and isinstance(t.value, ast.Name) and t.value.id == init.params[0] for t in n.targets)]
+    others = [f.short for f in ctx.cls(RA, "C08.8").methods.values() if f is not init for n in iter_own(f.node) if isinstance(n, (ast.Assign, ast.AugAssign))
+              for t in (n.targets if isinstance(n, ast.Assign) else [n.target]) if isinstance(t, ast.Attribute) and t.attr == la.attr]
+    if len(stores) != 1 or others:
+        raise AnalysisError("C08.8", f"self.{la.attr} is stored {len(stores)} times in __init__ and in {others}")
+    fattrs = {t.attr for n in iter_own(init.node) if isinstance(n, ast.Assign) and isinstance(n.value, ast.Name) and n.value.id == fparam for t in n.targets if isinstance(t, ast.Attribute)}
+
+    def is_path(n):
+        return (isinstance(n, ast.Name) and n.id == fparam) or (isinstance(n, ast.Attribute) and isinstance(n.value, ast.Name) and n.value.id == init.params[0] and n.attr in fattrs)
+
+    val = inlined_expr(ctx, init, stores[0].value)
+    keeps, occ = keeps_directory_of(val, is_path)
+    if occ == 0:
+        raise AnalysisError("C08.8", f"lock path `{ctx.src(val)}` does not mention the results file `{fparam}`")
+    r.check(keeps, "the lock path keeps the directory of the results file", key_of(init, "results lock location"), init.loc(stores[0]),
+            f"the lock path `{ctx.src(val)}` is built from the file *name* only: it is relative to the working directory of whichever process builds it, so a job runner and the collector "
+            "started from different directories (compute node vs. login node, or a recovery round run by hand) lock different files and no longer exclude each other - a row appended during "
+            "read-append-delete is deleted with the node file", "regardless of how result writes interleave with collection. No row is lost")
